@@ -58,6 +58,9 @@ func RunCmd(argv []string) int {
 	}
 	switch {
 	case len(c.Violations) > 0:
+		if c.suppressed > 0 {
+			fmt.Printf("  (%d further failing cases were found but not replayed)\n", c.suppressed)
+		}
 		fmt.Printf("FAIL property=%s violations=%d wall=%.1fs\n", id, len(c.Violations), since(c.Start))
 		return 1
 	case len(c.Inconcl) > 0:
